@@ -294,7 +294,7 @@ var c18Wide = func() []string {
 var c18Keys = []string{"a", "b", "c", "d", "e", "f", "k.dot", `k\esc`, "a.b", "0", "1", "", "ключ", `t\`, ".", "x.y.z", "level", "msg"}
 
 // small exhaustive scope: root {a,b,c} with values from a fixed menu, all subsets of the 12 selectors
-// a, b, c, a.a … c.c (every subset in the thorough tier; subsets of size ≤ 2 plus a sample in quick)
+// a, b, c, a.a … c.c, both plugins (every subset in the thorough tier; subsets of size ≤ 2 plus a 1% sample in quick)
 func c18Exhaustive(w *bufio.Writer, r *hx.Rng, tier string) {
 	menu := func() []*jt.Tree {
 		return []*jt.Tree{
@@ -325,7 +325,7 @@ func c18Exhaustive(w *bufio.Writer, r *hx.Rng, tier string) {
 					for x := mask; x > 0; x &= x - 1 {
 						pop++
 					}
-					if tier != "thorough" && pop > 2 && !r.Chance(1, 400) {
+					if tier != "thorough" && pop > 2 && !r.Chance(1, 100) {
 						continue
 					}
 					var sels [][]byte
@@ -334,13 +334,8 @@ func c18Exhaustive(w *bufio.Writer, r *hx.Rng, tier string) {
 							sels = append(sels, universe[i])
 						}
 					}
-					if tier == "thorough" && pop > 3 {
-						// one of the two plugins per (object, subset), alternating
-						c18Line(w, (mask+ai+bi+ci)%2 == 0, sels, obj)
-					} else {
-						c18Line(w, false, sels, obj)
-						c18Line(w, true, sels, obj)
-					}
+					c18Line(w, false, sels, obj)
+					c18Line(w, true, sels, obj)
 				}
 			}
 		}
@@ -348,10 +343,13 @@ func c18Exhaustive(w *bufio.Writer, r *hx.Rng, tier string) {
 }
 
 func genC18(w *bufio.Writer, rng *hx.Rng, tier string) {
+	// hx.NewRng(seed) starts at seed*G and steps by G: the streams of seeds n and n+1 are the same stream
+	// shifted by one draw. Re-key from the first (mixed) output so that seeds give unrelated runs.
+	rng = hx.NewRng(rng.U64())
 	// 1. selector grammar: every string over {a . \} up to length n
-	maxLen, nrand, nrt := 7, 9000, 1500
+	maxLen, nrand, nrt := 7, 40000, 3000
 	if tier == "thorough" {
-		maxLen, nrand, nrt = 9, 250000, 30000
+		maxLen, nrand, nrt = 9, 700000, 30000
 	}
 	alpha := []byte(`a.\`)
 	var rec func(cur []byte)
